@@ -65,8 +65,8 @@ theorem density_fst (h : Stable lib par m T P) (K : KSt α) :
   · rfl
   · rename_i hfp
     have h := h.resolve_left hfp
-    show densityOfFlash lib (lib.flash m T P K).1 (lib.flash m T P K).2.1 T P =
-      densityOfFlash lib (lib.flash m T P none).1 (lib.flash m T P none).2.1 T P
+    show densityOfFlash lib par.code (lib.flash m T P K).1 (lib.flash m T P K).2.1 T P =
+      densityOfFlash lib par.code (lib.flash m T P none).1 (lib.flash m T P none).2.1 T P
     rw [(h K none).1, (h K none).2]
 
 theorem fugacity_fst (h : Stable lib par m T P) (K : KSt α) :
@@ -77,8 +77,8 @@ theorem fugacity_fst (h : Stable lib par m T P) (K : KSt α) :
   · rfl
   · rename_i hfp
     have h := h.resolve_left hfp
-    show fugacityOfFlash lib (lib.flash m T P K).1 (lib.flash m T P K).2.1 T P =
-      fugacityOfFlash lib (lib.flash m T P none).1 (lib.flash m T P none).2.1 T P
+    show fugacityOfFlash lib par.code (lib.flash m T P K).1 (lib.flash m T P K).2.1 T P =
+      fugacityOfFlash lib par.code (lib.flash m T P none).1 (lib.flash m T P none).2.1 T P
     rw [(h K none).1, (h K none).2]
 
 theorem viscosity_fst (h : Stable lib par m T P) (K : KSt α) :
@@ -89,8 +89,8 @@ theorem viscosity_fst (h : Stable lib par m T P) (K : KSt α) :
   · rfl
   · rename_i hfp
     have h := h.resolve_left hfp
-    show viscosityOfFlash lib (lib.flash m T P K).1 (lib.flash m T P K).2.1 T P =
-      viscosityOfFlash lib (lib.flash m T P none).1 (lib.flash m T P none).2.1 T P
+    show viscosityOfFlash lib par.code (lib.flash m T P K).1 (lib.flash m T P K).2.1 T P =
+      viscosityOfFlash lib par.code (lib.flash m T P none).1 (lib.flash m T P none).2.1 T P
     rw [(h K none).1, (h K none).2]
 
 theorem sigma_fst (h : Stable lib par m T P) (K : KSt α) (S : α) :
@@ -113,8 +113,8 @@ theorem solubility_fst (h : Stable lib par m T P) (K : KSt α) (Sa : α) :
   · rfl
   · rename_i hfp
     have h := h.resolve_left hfp
-    show solubilityOfFlash lib (lib.flash m T P K).1 (lib.flash m T P K).2.1 T P Sa =
-      solubilityOfFlash lib (lib.flash m T P none).1 (lib.flash m T P none).2.1 T P Sa
+    show solubilityOfFlash lib par.code (lib.flash m T P K).1 (lib.flash m T P K).2.1 T P Sa =
+      solubilityOfFlash lib par.code (lib.flash m T P none).1 (lib.flash m T P none).2.1 T P Sa
     rw [(h K none).1, (h K none).2]
 
 theorem diameter_fst (h : Stable lib par m T P) (K : KSt α) :
@@ -173,15 +173,30 @@ def ShapeContract (lib : Lib Id α) : Prop :=
 
 /-- defect (a) excluded: whenever the gas row is not empty, "some liquid entry is zero"
     (individual methods) and "the liquid total is zero" (`return_all`) are the same condition -/
-def BranchAgree (lib : Lib Id α) (m : List α) (T P : α) : Prop :=
+def BranchAgree (lib : Lib Id α) (par : FluidPar α) (m : List α) (T P : α) : Prop :=
   ¬ isZero (Num.sum (mi0 lib m T P)) →
-    (indivGasBranch (mi1 lib m T P) ↔ bundleGasBranch (mi1 lib m T P))
+    (indivGasBranch par.code (mi1 lib m T P) ↔ bundleGasBranch (mi1 lib m T P))
 
 /-- defect (b) excluded, version 1: in the single-phase-gas branch the gas-row and liquid-row
     viscosities of the gas phase coincide (true when the cubic has one real root) -/
-def ViscRowsAgree (lib : Lib Id α) (m : List α) (T P : α) : Prop :=
+def ViscRowsAgree (lib : Lib Id α) (par : FluidPar α) (m : List α) (T P : α) : Prop :=
+  par.code.gasViscLiquidRow = true →
   ¬ isZero (Num.sum (mi0 lib m T P)) → bundleGasBranch (mi1 lib m T P) →
     (lib.eosViscosity T P (mi0 lib m T P)).1 = (lib.eosViscosity T P (mi0 lib m T P)).2
+
+/-- on the repaired code the two branch conditions are literally the same -/
+theorem branchAgree_of_repaired (lib : Lib Id α) (par : FluidPar α) (m : List α) (T P : α)
+    (h : par.code.zeroEntryTest = false) : BranchAgree lib par m T P := by
+  intro _
+  unfold indivGasBranch bundleGasBranch
+  simp [h]
+
+/-- on the repaired code the gas row is read: nothing to assume about the rows -/
+theorem viscRowsAgree_of_repaired (lib : Lib Id α) (par : FluidPar α) (m : List α) (T P : α)
+    (h : par.code.gasViscLiquidRow = false) : ViscRowsAgree lib par m T P := by
+  intro h'
+  rw [h] at h'
+  exact absurd h' (by simp)
 
 /-- defect (b) made unobservable, version 2: for DIRTY particles (status = -1, forced for
     fp_type = 2) the library correlations do not look at the particle viscosity
@@ -213,7 +228,7 @@ theorem phase_fst (h : Stable lib par m T P) (K : KSt α) (Sa : α) :
     rw [(h K none).1, (h K none).2]
 
 /-- `return_all`'s particle density is `FluidParticle.density` -/
-theorem phase_rhoP (Sa : α) (hb : par.fpType < 2 ∨ BranchAgree lib m T P) :
+theorem phase_rhoP (Sa : α) (hb : par.fpType < 2 ∨ BranchAgree lib par m T P) :
     (phaseV lib par m T Sa P).rhoP = densityV lib par m T P := by
   unfold phaseV phaseProps densityV density
   simp only [bind, pure]
@@ -230,11 +245,11 @@ theorem phase_rhoP (Sa : α) (hb : par.fpType < 2 ∨ BranchAgree lib m T P) :
       have := hb' hg
       by_cases hl : bundleGasBranch (lib.flash m T P none).2.1
       · simp only [hl, this.mpr hl, if_true]
-      · have hl' : ¬ indivGasBranch (lib.flash m T P none).2.1 := fun c => hl (this.mp c)
+      · have hl' : ¬ indivGasBranch par.code (lib.flash m T P none).2.1 := fun c => hl (this.mp c)
         simp only [hl, hl', if_false]
 
 /-- `return_all`'s interfacial tension is `FluidParticle.interface_tension` -/
-theorem phase_sigma (Sa : α) (hb : par.fpType < 2 ∨ BranchAgree lib m T P) :
+theorem phase_sigma (Sa : α) (hb : par.fpType < 2 ∨ BranchAgree lib par m T P) :
     (phaseV lib par m T Sa P).sigma = sigmaV lib par m T Sa P := by
   unfold phaseV phaseProps sigmaV interfaceTension
   simp only [bind, pure]
@@ -251,11 +266,11 @@ theorem phase_sigma (Sa : α) (hb : par.fpType < 2 ∨ BranchAgree lib m T P) :
       have := hb' hg
       by_cases hl : bundleGasBranch (lib.flash m T P none).2.1
       · simp only [hl, this.mpr hl, if_true]
-      · have hl' : ¬ indivGasBranch (lib.flash m T P none).2.1 := fun c => hl (this.mp c)
+      · have hl' : ¬ indivGasBranch par.code (lib.flash m T P none).2.1 := fun c => hl (this.mp c)
         simp only [hl, hl', if_false]
 
 /-- `return_all`'s solubilities are `FluidParticle.solubility` -/
-theorem phase_Cs (Sa : α) (hb : par.fpType < 2 ∨ BranchAgree lib m T P) :
+theorem phase_Cs (Sa : α) (hb : par.fpType < 2 ∨ BranchAgree lib par m T P) :
     lib.swSolubility (phaseV lib par m T Sa P).f (lib.khInsitu T P Sa) =
       solubilityV lib par m T P Sa := by
   unfold phaseV phaseProps solubilityV solubility
@@ -275,12 +290,12 @@ theorem phase_Cs (Sa : α) (hb : par.fpType < 2 ∨ BranchAgree lib m T P) :
       have := hb' hg
       by_cases hl : bundleGasBranch (lib.flash m T P none).2.1
       · simp only [hl, this.mpr hl, if_true]
-      · have hl' : ¬ indivGasBranch (lib.flash m T P none).2.1 := fun c => hl (this.mp c)
+      · have hl' : ¬ indivGasBranch par.code (lib.flash m T P none).2.1 := fun c => hl (this.mp c)
         simp only [hl, hl', if_false]
 
 /-- `return_all`'s particle viscosity is `FluidParticle.viscosity` — needs BOTH exclusions -/
 theorem phase_muP (Sa : α)
-    (hb : par.fpType < 2 ∨ (BranchAgree lib m T P ∧ ViscRowsAgree lib m T P)) :
+    (hb : par.fpType < 2 ∨ (BranchAgree lib par m T P ∧ ViscRowsAgree lib par m T P)) :
     (phaseV lib par m T Sa P).muP = viscosityV lib par m T P := by
   unfold phaseV phaseProps viscosityV viscosity
   simp only [bind, pure]
@@ -299,8 +314,11 @@ theorem phase_muP (Sa : α)
       have := hb' hg
       by_cases hl : bundleGasBranch (lib.flash m T P none).2.1
       · simp only [hl, this.mpr hl, if_true]
-        exact hv' hg hl
-      · have hl' : ¬ indivGasBranch (lib.flash m T P none).2.1 := fun c => hl (this.mp c)
+        cases hrow : par.code.gasViscLiquidRow
+        · simp
+        · simp only [if_true]
+          exact hv' hrow hg hl
+      · have hl' : ¬ indivGasBranch par.code (lib.flash m T P none).2.1 := fun c => hl (this.mp c)
         simp only [hl, hl', if_false]
 
 -- ------------------------------------------------------------------ the individual methods, unfolded once
@@ -396,7 +414,12 @@ noncomputable def constLib : Lib Id ℝ where
 
 /-- the mixed-phase air-like particle used by the refutations (isair: the interfacial tension is
     `seawater.sigma`, so no density enters it) -/
-noncomputable def mixedPar : FluidPar ℝ := { fpType := 2, isair := true, sigmaCorr := 1, Tc := [] }
+noncomputable def mixedPar : FluidPar ℝ :=
+  { fpType := 2, isair := true, sigmaCorr := 1, Tc := [], code := Code.asWritten }
+
+/-- the same particle on the repaired code -/
+noncomputable def mixedParRepaired : FluidPar ℝ :=
+  { fpType := 2, isair := true, sigmaCorr := 1, Tc := [], code := Code.repaired }
 
 noncomputable def someInput : Inp ℝ := { m := [2, 1], T := 300, P := 1, Sa := 35, Ta := 290, clean := false }
 
@@ -411,8 +434,9 @@ theorem not_isZero_two : ¬ isZero (2 : ℝ) := by unfold isZero; simp only [Num
 theorem not_isZero_one : ¬ isZero (1 : ℝ) := by unfold isZero; simp only [Num.real_zero]; norm_num
 theorem isZero_zero : isZero (0 : ℝ) := by unfold isZero; simp only [Num.real_zero]; norm_num
 
-theorem indiv_branch_10 : indivGasBranch ([1, 0] : List ℝ) := by
+theorem indiv_branch_10 : indivGasBranch Code.asWritten ([1, 0] : List ℝ) := by
   unfold indivGasBranch countZero
+  simp only [Code.asWritten, if_true]
   simp [List.filter, not_isZero_one, isZero_zero]
 
 theorem not_bundle_branch_10 : ¬ bundleGasBranch ([1, 0] : List ℝ) := by
@@ -427,24 +451,26 @@ noncomputable def gasInput : Inp ℝ := { m := [1], T := 300, P := 1, Sa := 35, 
 theorem sum1 : Num.sum ([1] : List ℝ) = 1 := by simp
 theorem sum0 : Num.sum ([0] : List ℝ) = 0 := by simp
 
-theorem indiv_branch_0 : indivGasBranch ([0] : List ℝ) := by
+theorem indiv_branch_0 : indivGasBranch Code.asWritten ([0] : List ℝ) := by
   unfold indivGasBranch countZero
+  simp only [Code.asWritten, if_true]
   simp [List.filter, isZero_zero]
 
 theorem bundle_branch_0 : bundleGasBranch ([0] : List ℝ) := by
   unfold bundleGasBranch; rw [sum0]; exact isZero_zero
 
-theorem gasOnly_branchAgree : BranchAgree gasOnlyLib gasInput.m gasInput.T gasInput.P := by
+theorem gasOnly_branchAgree : BranchAgree gasOnlyLib mixedPar gasInput.m gasInput.T gasInput.P := by
   intro _
-  simp only [mi1, gasOnlyLib]
+  simp only [mi1, gasOnlyLib, mixedPar]
   exact ⟨fun _ => bundle_branch_0, fun _ => indiv_branch_0⟩
 
 /-- a two-phase flash without zero entries: gas (1, 1), liquid (1, 1) -/
 noncomputable def twoPhaseLib : Lib Id ℝ :=
   { constLib with flash := fun _ _ _ _ => (([1, 1] : List ℝ), ([1, 1] : List ℝ), (none : KSt ℝ)) }
 
-theorem not_indiv_branch_11 : ¬ indivGasBranch ([1, 1] : List ℝ) := by
+theorem not_indiv_branch_11 : ¬ indivGasBranch Code.asWritten ([1, 1] : List ℝ) := by
   unfold indivGasBranch countZero
+  simp only [Code.asWritten, if_true]
   simp [List.filter, not_isZero_one]
 
 end Witness
